@@ -17,7 +17,7 @@ LEVEL = "exploration"
 ENGINE = "E6"
 TECHNIQUE = "exhaustive enumeration of the command-line option space (every subset of options, every order of option groups, 0/1/2 macro files in both orders) x rule/input pairs; the CLI subprocess is compared with the in-process API for the corresponding MatchConfig"
 RULE = ("rule/input pairs: {found once, not found, several matches, captures, needs two macro files in a specific order, "
-        "failing rule (undefined macro with definitions), failing input (missing file), rule depending on a call target, listing whose addresses restart (identical consecutive address lines), input the disassembler rejects, listing whose matched addresses cross a hex digit-count boundary}; -b runs with objdump absent from PATH x {-s assembly, -b binary} x "
+        "failing rule (undefined macro with definitions), failing input (missing file), five more failing operations raising other exception types (regex error at scan time, negative times, malformed YAML, wrongly typed config entry, macro without pattern), rule depending on a call target, listing whose addresses restart (identical consecutive address lines), input the disassembler rejects, listing whose matched addresses cross a hex digit-count boundary}; -b runs with objdump absent from PATH x {-s assembly, -b binary} x "
         "EVERY subset of {--all-matches, --return_only_address, --debug, --info} x --macros with 0 / 1 / 2 files in both "
         "orders x EVERY order of the option groups on the command line (quick: all orders for 2 pairs, 3 rotations for the "
         "rest); plus the invalid command lines (no -p; neither -s nor -b; both). Each is one `python -m jasm.main` "
@@ -58,6 +58,12 @@ PAIRS = {
     "macro_one": dict(rule=make_rule_doc(["@inner", "ret"], None, [{"name": "@z", "pattern": "x"}]), macros=1),
     "fail_rule": dict(rule=make_rule_doc(["@nosuch", "ret"], None, [{"name": "@z", "pattern": "x"}]), macros=0),
     "fail_input": dict(rule=make_rule_doc(["ret"]), macros=0, missing_input=True),
+    # one failing operation per kind of exception the library raises (the command must fail for every one of them)
+    "fail_regex": dict(rule=make_rule_doc([{"jmp": ["*%rax"]}]), macros=0, few=True),                      # regex.error when the scan starts
+    "fail_times": dict(rule=make_rule_doc([{"mov": {"times": -1}}]), macros=0, few=True),                   # ValueError
+    "fail_yaml": dict(rule=None, raw="pattern: [\n  - mov\n", macros=0, few=True),                          # yaml error
+    "fail_config": dict(rule=make_rule_doc(["ret"], {"sections": ".text"}), macros=0, few=True),            # wrongly typed config entry
+    "fail_macro": dict(rule=make_rule_doc(["@r", "ret"], None, [{"name": "@r"}]), macros=0, few=True),     # AssertionError
     "call_target": dict(rule=make_rule_doc([{"call": ["4010"]}]), macros=0),         # depends on an operand a stale valid_addr_range would rewrite
     "dup_addr": dict(rule=make_rule_doc(["ret"]), macros=0, input="dup"),            # identical consecutive 'Matched address' lines
     "width_cross": dict(rule=make_rule_doc(["ret"]), macros=0, input="width"),       # listing order != string order of the addresses
@@ -82,6 +88,8 @@ def all_cases(tier):
             for mo in macro_opts:
                 for k in range(0, len(FLAGS) + 1):
                     for fl in itertools.combinations(FLAGS, k):
+                        if p.get("few") and fl not in ((), ("--all-matches",), ("--all-matches", "--return_only_address", "--debug")):
+                            continue
                         groups = [("P",), ("I",)] + [(f,) for f in fl if f in FLAGS[:2]] + ([("M",)] if mo else [])
                         loglvl = [f for f in fl if f in FLAGS[2:]]
                         perms = list(itertools.permutations(range(len(groups))))
@@ -132,7 +140,7 @@ def files(h):
     os.makedirs(f["cwd"], exist_ok=True)
     for pn, p in PAIRS.items():
         f["rule_" + pn] = os.path.join(d, f"rule_{pn}.yaml")
-        open(f["rule_" + pn], "w").write(yaml.safe_dump(p["rule"], sort_keys=False))
+        open(f["rule_" + pn], "w").write(p["raw"] if "raw" in p else yaml.safe_dump(p["rule"], sort_keys=False))
     _FILES.clear()
     _FILES[h.root] = f
     return f
